@@ -32,7 +32,7 @@ def strategy(tier):
     cached = graph.graph_case(max_tasks=8 if tier == "quick" else 12, outcomes="some", max_bad=3, kind_weights=(2, 6, 1, 0),
                               p_seed_den=2, tape_max=50, tape_hi=31, densities=("dense", "sparse"), flags=("stop_early",),
                               jobs=(None, 2, 3, 3, 4))
-    virtual = st.one_of(general, general, cached, graph.layered_case(flags=("stop_early",), p_fail_den=3), graph.sandwich_case(p_fail_den=3))
+    virtual = st.one_of(general, general, cached, graph.layered_case(flags=("stop_early",), p_fail_den=3), graph.sandwich_case(p_fail_den=3), graph.fan_case())
     real = st.one_of(reallayer.real_case(flags=("stop_early",)), reallayer.real_case(flags=("stop_early",), layered=True))
     return reallayer.mixed(virtual, real)
 
@@ -69,6 +69,8 @@ def check(case, res):
     ids = obs.ids
     v = []
     labels = ["real_processes"] if case.get("layer") == "real" else []
+    if case.get("fdlimit"):
+        labels.append("many_failures_under_a_descriptor_limit")
     if res["status"] in ("deadlock", "livelock"):
         return Outcome([], ["deadlock_ignored_here"], False, obs.brief())
     again = "again" in case["flags"]
